@@ -1,34 +1,49 @@
 //! C21 — native pixel data frames (pixeldata/src/lib.rs: decode_pixel_data,
 //! decode_pixel_data_frame, DecodedPixelData::frame_data).
 use crate::obj::*;
-use dicom_dictionary_std::uids;
+use dicom_core::VR;
+use dicom_dictionary_std::{tags, uids};
 use dicom_pixeldata::PixelDecoder;
 use serde_json::json;
 use vhc::*;
 
-struct Spec { rows: u16, cols: u16, spp: u16, bits: u16, frames: u32, data: Vec<u8>, words: bool, query: Vec<u32>, bucket: String }
+/// `data`: the byte stream meant to be stored; `rep`: how the value is held in memory (padded with zeros to its
+/// element width); `rt`: 0 = decode the object as built, 1 = after a file round trip in Explicit VR LE, 2 = in Implicit VR LE
+struct Spec { rows: u16, cols: u16, spp: u16, bits: u16, frames: u32, data: Vec<u8>, rep: Rep, rt: u8, query: Vec<u32>, bucket: String }
 
 fn out(r: Option<Result<Vec<u8>, u32>>) -> String {
     match r { None => c_panic(), Some(Ok(b)) => c_ok(&c_bytes(&b)), Some(Err(c)) => c_err(c) }
 }
 
 /// the expected decoded bytes of the whole object, straight from the definition
-fn expected_whole(s: &Spec) -> Option<Vec<u8>> {
+fn expected_whole(s: &Spec, stored: &[u8]) -> Option<Vec<u8>> {
     let fs = s.rows as usize * s.cols as usize * s.spp as usize;
     let nf = s.frames as usize;
     if s.bits == 1 {
         let total = fs * nf;
-        if total.div_ceil(8) > s.data.len() { return None; }
-        Some((0..total).map(|k| ((s.data[k / 8] >> (k % 8)) & 1) * 255).collect())
+        if total.div_ceil(8) > stored.len() { return None; }
+        Some((0..total).map(|k| ((stored[k / 8] >> (k % 8)) & 1) * 255).collect())
     } else {
         let n = fs * (s.bits as usize).div_ceil(8) * nf;
-        if n > s.data.len() { return None; }
-        Some(s.data[..n].to_vec())
+        if n > stored.len() { return None; }
+        Some(stored[..n].to_vec())
     }
 }
 
 fn run(s: &Spec) -> Case {
-    let obj = mk(s.rows, s.cols, s.spp, s.bits, s.frames, native_value(&s.data, s.words), uids::EXPLICIT_VR_LITTLE_ENDIAN);
+    // the bytes put into the object: padded with zeros to the element width of the representation;
+    // the bytes stored after a file round trip: padded to even length as well
+    let mut built_bytes = s.data.clone();
+    while built_bytes.len() % s.rep.width() != 0 { built_bytes.push(0); }
+    let mut stored = built_bytes.clone();
+    if s.rt != 0 && stored.len() % 2 == 1 { stored.push(0); }
+    let vr = if s.rep == Rep::U8 { VR::OB } else { VR::OW };
+    let ts = if s.rt == 2 { uids::IMPLICIT_VR_LITTLE_ENDIAN } else { uids::EXPLICIT_VR_LITTLE_ENDIAN };
+    let built = mk_vr(s.rows, s.cols, s.spp, s.bits, s.frames, held_value(&built_bytes, s.rep).into(), vr, ts);
+    let obj = if s.rt == 0 { built } else { match file_round_trip(&built) { Some(o) => o, None => built } };
+    // what the decoded object actually holds: element width and elements (printed for the model)
+    let (k, vals) = obj.element(tags::PIXEL_DATA).ok().and_then(|e| e.value().primitive().and_then(held_elements)).unwrap_or((1, vec![]));
+    let held_bytes: Vec<u8> = vals.iter().flat_map(|v| v.to_le_bytes()[..k].to_vec()).collect();
     let whole = catch(|| obj.decode_pixel_data());
     let whole_o = whole.as_ref().map(|r| r.as_ref().map(|d| d.data().to_vec()).map_err(px_err_class));
     let mut per = vec![];
@@ -42,14 +57,15 @@ fn run(s: &Spec) -> Case {
         per.push(c_tuple(&[c_n(f), out(pf.clone()), out(fd.clone())]));
         per_raw.push((f, pf, fd));
     }
-    let coq = c_tuple(&[c_n(s.rows), c_n(s.cols), c_n(s.spp), c_n(s.bits), c_n(s.frames), c_bytes(&s.data), out(whole_o.clone()), c_list(per)]);
+    let coq = c_tuple(&[c_n(s.rows), c_n(s.cols), c_n(s.spp), c_n(s.bits), c_n(s.frames), format!("{}%nat", k), c_list(vals.iter().map(|v| v.to_string())), out(whole_o.clone()), c_list(per)]);
     // direct oracle
     let fsz = s.rows as usize * s.cols as usize * s.spp as usize * (s.bits as usize).div_ceil(8);
-    let oracle = match expected_whole(s) {
+    let oracle = if held_bytes != stored { Oracle::Fails { class: "native-store".into(), detail: format!("the object holds {} bytes, {} were stored", held_bytes.len(), stored.len()) } } else { match expected_whole(s, &stored) {
         None => Oracle::NotApplicable,
         Some(exp) => {
             let class = if s.bits == 1 && (s.rows as usize * s.cols as usize * s.spp as usize) % 8 != 0 { "OneBitFrameNotByteAligned" }
-                else if s.bits != 1 && s.data.len() > exp.len() { "NativeTrailingPadding" } else { "native-frames" };
+                else if s.bits != 1 && stored.len() > exp.len() { "NativeTrailingPadding" } else { "native-frames" };
+            let class = if k > 1 { format!("{class}/held-as-{}-byte-words", k) } else { class.to_string() };
             let mut bad: Option<String> = None;
             match &whole_o {
                 Some(Ok(w)) if *w == exp => {}
@@ -65,15 +81,15 @@ fn run(s: &Spec) -> Case {
                     bad = Some(format!("frame_data({f}) on the whole result differs: {:?}", fd));
                 }
             }
-            match bad { None => Oracle::Holds, Some(d) => Oracle::Fails { class: class.into(), detail: d } }
+            match bad { None => Oracle::Holds, Some(d) => Oracle::Fails { class, detail: d } }
         }
-    };
+    } };
     let trivial = s.rows == 0 || s.cols == 0;
     Case {
         coq,
         desc: json!({"bucket": s.bucket, "rows": s.rows, "cols": s.cols, "spp": s.spp, "bits_allocated": s.bits, "frames": s.frames,
-                     "data_hex": hex(&s.data), "as_words": s.words, "query": s.query}),
-        key: if trivial { String::new() } else { format!("{}x{}x{}b{}f{}:{}", s.rows, s.cols, s.spp, s.bits, s.frames, hex(&s.data)) },
+                     "data_hex": hex(&s.data), "held_as": format!("{:?}", s.rep), "file_round_trip": s.rt, "query": s.query}),
+        key: if trivial { String::new() } else { format!("{}x{}x{}b{}f{}:{:?}{}:{}", s.rows, s.cols, s.spp, s.bits, s.frames, s.rep, s.rt, hex(&s.data)) },
         oracle,
     }
 }
@@ -82,12 +98,17 @@ pub fn cases(ctx: &Ctx) -> Vec<Case> {
     let mut r = Rng::new(ctx.seed);
     let mut specs: Vec<Spec> = vec![
         // witnesses of the defects found (fixed by f3f2dd2 / 4fd5c49)
-        Spec { rows: 3, cols: 3, spp: 1, bits: 1, frames: 2, data: vec![0b1010_1010, 1, 3], words: false, query: vec![0, 1, 2], bucket: "corpus:1bit-3x3x2".into() },
-        Spec { rows: 3, cols: 3, spp: 1, bits: 8, frames: 1, data: vec![1, 2, 3, 4, 5, 6, 7, 8, 9, 0], words: false, query: vec![0, 1], bucket: "corpus:8bit-odd-padded".into() },
-        Spec { rows: 2, cols: 4, spp: 3, bits: 1, frames: 2, data: vec![1, 2, 3, 4, 5, 6], words: false, query: vec![0, 1], bucket: "corpus:1bit-spp3".into() },
-        Spec { rows: 1, cols: 1, spp: 1, bits: 1, frames: 7, data: vec![0b0101_0101], words: false, query: vec![0, 1, 2, 3, 4, 5, 6, 7], bucket: "corpus:1bit-1x1x7".into() },
-        Spec { rows: 5, cols: 3, spp: 1, bits: 1, frames: 3, data: vec![0xff, 0x00, 0xa5, 0x3c, 0x81, 0x1f], words: false, query: vec![0, 1, 2], bucket: "corpus:1bit-5x3x3".into() },
-        Spec { rows: 4, cols: 4, spp: 1, bits: 1, frames: 2, data: vec![1, 2, 3], words: false, query: vec![0, 1], bucket: "corpus:1bit-short".into() },
+        Spec { rows: 3, cols: 3, spp: 1, bits: 1, frames: 2, data: vec![0b1010_1010, 1, 3], rep: Rep::U8, rt: 0, query: vec![0, 1, 2], bucket: "corpus:1bit-3x3x2".into() },
+        Spec { rows: 3, cols: 3, spp: 1, bits: 8, frames: 1, data: vec![1, 2, 3, 4, 5, 6, 7, 8, 9, 0], rep: Rep::U8, rt: 0, query: vec![0, 1], bucket: "corpus:8bit-odd-padded".into() },
+        Spec { rows: 2, cols: 4, spp: 3, bits: 1, frames: 2, data: vec![1, 2, 3, 4, 5, 6], rep: Rep::U8, rt: 0, query: vec![0, 1], bucket: "corpus:1bit-spp3".into() },
+        Spec { rows: 1, cols: 1, spp: 1, bits: 1, frames: 7, data: vec![0b0101_0101], rep: Rep::U8, rt: 0, query: vec![0, 1, 2, 3, 4, 5, 6, 7], bucket: "corpus:1bit-1x1x7".into() },
+        Spec { rows: 5, cols: 3, spp: 1, bits: 1, frames: 3, data: vec![0xff, 0x00, 0xa5, 0x3c, 0x81, 0x1f], rep: Rep::U8, rt: 0, query: vec![0, 1, 2], bucket: "corpus:1bit-5x3x3".into() },
+        Spec { rows: 4, cols: 4, spp: 1, bits: 1, frames: 2, data: vec![1, 2, 3], rep: Rep::U8, rt: 0, query: vec![0, 1], bucket: "corpus:1bit-short".into() },
+        // value held as 16-bit words (what VR OW yields): odd frame size, odd-numbered frames start inside a word
+        Spec { rows: 3, cols: 3, spp: 1, bits: 8, frames: 3, data: (1..=27).collect(), rep: Rep::U16, rt: 0, query: vec![0, 1, 2, 3], bucket: "corpus:8bit-odd-frames-held-as-words".into() },
+        Spec { rows: 3, cols: 3, spp: 1, bits: 8, frames: 3, data: (1..=27).collect(), rep: Rep::U8, rt: 2, query: vec![0, 1, 2, 3], bucket: "corpus:8bit-odd-frames-implicit-vr-file".into() },
+        Spec { rows: 3, cols: 3, spp: 1, bits: 1, frames: 3, data: vec![0x35, 0xc6, 0x5a, 0x07], rep: Rep::U16, rt: 0, query: vec![0, 1, 2, 3], bucket: "corpus:1bit-held-as-words".into() },
+        Spec { rows: 1, cols: 5, spp: 1, bits: 8, frames: 3, data: (1..=15).collect(), rep: Rep::U32, rt: 0, query: vec![0, 1, 2], bucket: "corpus:8bit-held-as-u32".into() },
     ];
     while specs.len() < ctx.n {
         let bits = match r.below(20) { 0..=8 => 1, 9..=13 => 8, 14..=18 => 16, _ => *r.pick(&[12u16, 24, 32]) };
@@ -110,8 +131,13 @@ pub fn cases(ctx: &Ctx) -> Vec<Case> {
         query.push(frames);
         if r.chance(1, 4) { query.push(frames + r.range(1, 5) as u32); }
         let aligned = if bits == 1 { if fs % 8 == 0 { "aligned" } else { "unaligned" } } else { "bytes" };
-        specs.push(Spec { rows, cols, spp, bits, frames, data, words: bits == 16 && r.coin(), query, bucket: format!("b{bits}/spp{spp}/{kind}/{aligned}") });
+        // how the value is held (any depth): bytes, 16-bit words (VR OW), rarely other numeric values;
+        // decoded as built, or after a file round trip (Explicit VR LE keeps OB/OW, Implicit VR LE reads OW words)
+        let rep = match r.below(20) { 0..=8 => Rep::U8, 9..=16 => Rep::U16, 17 => Rep::I16, 18 => *r.pick(&[Rep::U32, Rep::I32]), _ => Rep::U64 };
+        let rt = match r.below(10) { 0..=5 => 0u8, 6 | 7 => 1, _ => 2 };
+        let odd = if bits != 1 && (fs * (bits as usize).div_ceil(8)) % 2 == 1 && frames > 1 { "/odd-frame-bytes" } else { "" };
+        specs.push(Spec { rows, cols, spp, bits, frames, data, rep, rt, query, bucket: format!("b{bits}/spp{spp}/{kind}/{aligned}/{:?}/rt{rt}{odd}", rep) });
     }
-    specs.truncate(ctx.n.max(6));
+    specs.truncate(ctx.n.max(10));
     specs.iter().map(run).collect()
 }
